@@ -183,7 +183,11 @@ def run(ctx):
     n3 = 0
     for meth in ("write_str", "write_char"):
         path = "<minijinja::output::WriteWrapper<W> as core::fmt::Write>::" + meth
-        f = prog.fn(path)
+        from .. import inline
+        f0 = prog.fn(path)
+        # read through a private helper the two methods may share (`self.write_bytes(s.as_bytes())`)
+        f = inline.view(prog, f0, keep=("write_all", "map_err", "as_bytes", "encode_utf8"))
+        helper_closures = [cl_ for h_ in inline.inlined_helpers(f) for cl_ in prog.closures_of(h_)]
         wa = [c for c in f.calls() if c.name.endswith("io::Write::write_all")]
         ctx.ob("C19.O3.wrapper-uses-write_all", path, len(wa) == 1,
                "expected exactly one write_all (short writes are retried by write_all)", f.loc)
@@ -195,7 +199,7 @@ def run(ctx):
             # the map_err closure stores the error
             stored = False
             ret_fmt_err = False
-            for cl in prog.closures_of(path):
+            for cl in prog.closures_of(path) + helper_closures:
                 caps = flow.closure_captures(prog, cl)
                 for d in flow.stores(cl):
                     # which capture is written through?
@@ -218,6 +222,20 @@ def run(ctx):
                     if s["k"] == "assign" and s["place"] == {"l": 0} and s["rv"]["k"] == "agg" and s["rv"].get(
                             "adt") == "core::fmt::Error":
                         ret_fmt_err = True
+            # the same written without a closure (`Err(e) => { self.err = Some(e); Err(fmt::Error) }`)
+            for d in flow.stores(f):
+                if "err" in flow._proj_names(d.place) and d.rv["k"] in ("use", "agg"):
+                    src = d.rv if d.rv["k"] == "agg" else None
+                    if src is None:
+                        for o in flow.origins(f, d.rv["op"]):
+                            if o.kind == "agg":
+                                src = o.rv
+                    if src is not None and src.get("variant") == "Some" and any(
+                            o.kind == "call" and o.call.bb == c.bb for o in flow.origins(f, src["ops"][0])):
+                        stored = True
+            for bb_, i_, s_ in f.all_stmts():
+                if s_["k"] == "assign" and s_["rv"]["k"] == "agg" and s_["rv"].get("adt") == "core::fmt::Error":
+                    ret_fmt_err = True
             ctx.ob("C19.O3.closure-stores-io-error", path, stored,
                    "the map_err closure must store Some(io_error) into WriteWrapper.err", f.loc)
             ctx.ob("C19.O3.closure-returns-fmt-error", path, ret_fmt_err, "", f.loc)
@@ -281,11 +299,17 @@ def run(ctx):
             if c.name == "minijinja::error::Error::with_source":
                 if any(o.kind == "arg" for o in flow.origins(cl, c.args[1])):
                     src_ok = True
+                # `match self.err.take() { Some(io_err) => ...with_source(io_err), .. }`
+                if any(o.kind == "call" and o.call.name == "core::option::Option::take" and any(
+                        "err" in q.proj for q in flow.origins(cl, o.call.args[0])) for o in flow.origins(cl, c.args[1])):
+                    src_ok = True
     ctx.ob("C19.O4.take_err-yields-WriteFailure", TAKE_ERR, wf, "", te.loc)
     ctx.ob("C19.O4.take_err-attaches-io-error-as-source", TAKE_ERR, src_ok, "", te.loc)
     unwrap_or = [c for c in te.calls() if c.name == "core::option::Option::unwrap_or"]
-    ctx.ob("C19.O4.take_err-falls-back-to-original", TAKE_ERR,
-           len(unwrap_or) == 1 and any(o.kind == "arg" and o.arg == 2 for o in flow.origins(te, unwrap_or[0].args[1])),
+    falls_back = len(unwrap_or) == 1 and any(o.kind == "arg" and o.arg == 2 for o in flow.origins(te, unwrap_or[0].args[1]))
+    # or written as a match whose None arm returns the parameter
+    falls_back = falls_back or any(o.kind == "arg" and o.arg == 2 and not o.proj for o in flow.origins(te, {"mv": {"l": 0}}))
+    ctx.ob("C19.O4.take_err-falls-back-to-original", TAKE_ERR, falls_back,
            "", te.loc)
     # O5
     mc = "<minijinja::vm::macro_object::Macro as minijinja::value::object::Object>::call"
